@@ -216,8 +216,8 @@ fn grammar() -> Vec<Case> {
     let mut v = Vec::new();
     let hosts = ["a", "a.b", "example.org", &"x".repeat(63), "127.0.0.1", "10.1.2.3", "[::1]", "[2001:db8::1]", "[::ffff:1.2.3.4]"];
     let ports = ["", ":1", ":80", ":8080", ":65535"];
-    let paths = ["", "/", "/a/b", "/a:b", "/x://y", "/p/"];
-    let queries = ["", "?a=b", "?u=http://h:1/", "?a?b", "?x=/"];
+    let paths = ["", "/", "/a/b", "/a:b", "/x://y", "/p/", "/@scope/pkg", "/u:p@h:9/c"];
+    let queries = ["", "?a=b", "?u=http://h:1/", "?a?b", "?x=/", "?mail=bob@files.example.net", "?r=@h:81/"];
     for method in ["GET", "POST", "PUT", "OPTIONS", "HEAD"] {
         for h in hosts {
             for p in ports {
@@ -352,7 +352,7 @@ pub fn run(a: &Args) -> Report {
             Ok(Ok(o)) => judge(rep, c, o, seed, i as u64),
         }
     });
-    rep.sample(json!({"grammar": "methods {GET,POST,PUT,OPTIONS,HEAD,CONNECT} x hosts {reg-names 1..63, IPv4, bracketed IPv6} x ports {absent,1,80,8080,65535} x paths {'', '/', '/a/b', '/a:b', '/x://y', '/p/'} x queries {'', '?a=b', '?u=http://h:1/', '?a?b', '?x=/'} (full product) + malformed variants + SOCKS5 (3 address types, unsupported commands/methods/versions)", "whole_requests": whole, "segmented_requests": total - whole - n_early, "early_data_requests": n_early, "oracle": "refimpl::http::expected_target (RFC 9112 request-target, RFC 3986 authority) / RFC 1928"}));
+    rep.sample(json!({"grammar": "methods {GET,POST,PUT,OPTIONS,HEAD,CONNECT} x hosts {reg-names 1..63, IPv4, bracketed IPv6} x ports {absent,1,80,8080,65535} x paths {'', '/', '/a/b', '/a:b', '/x://y', '/p/', '/@scope/pkg', '/u:p@h:9/c'} x queries {'', '?a=b', '?u=http://h:1/', '?a?b', '?x=/', '?mail=bob@files.example.net', '?r=@h:81/'} (full product) + malformed variants + SOCKS5 (3 address types, unsupported commands/methods/versions)", "whole_requests": whole, "segmented_requests": total - whole - n_early, "early_data_requests": n_early, "oracle": "refimpl::http::expected_target (RFC 9112 request-target, RFC 3986 authority) / RFC 1928"}));
     rep.extra.insert("exhaustive_detail".into(), json!("the request-target grammar product is enumerated completely (whole delivery); every single cut position is enumerated for a sample of requests of each kind"));
     rep
 }
